@@ -2,5 +2,7 @@
 (* export instance: one molecule list per state would multiply with the options; the options are enumerated for a few lists *)
 EXTENDS MC_GenCoordsOut
 XMolLists == { <<E("W", 3), E("A", 1)>>, <<E("A", 2)>>, <<E("V", 1), E("W", 1), E("V", 1)>>, <<E("A", 1), E("V", 2)>>, <<E("W", 1), E("A", 1), E("W", 1)>>,
-               <<E("L", 1), E("W", 2)>>, <<E("L", 2)>> }     \* L: 8 single-atom residues RA RB RA RB ...: with -res RB built and given residues alternate
+               <<E("L", 1), E("W", 2)>>, <<E("L", 2)>>,
+               \* residue name RA with different content (two atoms in A, one atom in L) in one system: masses are per atom, not per residue name
+               <<E("A", 1), E("L", 1)>>, <<E("L", 1), E("W", 1), E("A", 1)>> }     \* L: 8 single-atom residues RA RB RA RB ...: with -res RB built and given residues alternate
 =============================================================================
